@@ -35,7 +35,7 @@ CHECKS = {
             "types/structure.py:StructureMetaType._read",
         ],
         "required_cells": ["compiled:True", "fallback", "align:True", "align:False", "endian:<", "endian:>",
-                           "explicit-offsets", "mixed-modes"],
+                           "explicit-offsets", "mixed-modes", "deep-folded-length-source"],
         "assumptions": ASSUME_COMMON,
     },
 }
@@ -87,7 +87,8 @@ CHECKS["C04"] = {
                        "cstruct.py:cstruct._make_array", "cstruct.py:cstruct._make_pointer",
                        "expression.py:Expression.evaluate"],
     "required_cells": ["align:True", "align:False", "alignclass:1", "alignclass:2", "alignclass:4", "alignclass:8",
-                       "alignclass:16", "mixed-modes:aligned-offset", "mixed-modes:unaligned-offset", "empty-structures", "explicit-forward-offsets"],
+                       "alignclass:16", "mixed-modes:aligned-offset", "mixed-modes:unaligned-offset", "empty-structures", "explicit-forward-offsets",
+                       "sizeof-of-names:alias", "sizeof-of-names:other", "custom-type-alignment"],
     "assumptions": ASSUME_COMMON,
 }
 
@@ -108,7 +109,8 @@ CHECKS["C06"] = {
     "required_cells": ["straddle", "aligned", "feat:bits:signed", "feat:bits:enum", "feat:bits:wide",
                        "exh:uint8:<:compiled", "exh:uint8:>:interpreted", "exh:int8:>:compiled",
                        "exh:int8:<:interpreted", "char-units:compiled", "char-units:interpreted", "union-bit-fields",
-                       "single-bit-field-structures", "enum-vs-base-bit-fields"],
+                       "single-bit-field-structures", "enum-vs-base-bit-fields",
+                       "endian-switched-after-load:compiled", "endian-switched-after-load:interpreted"],
     "exhaustive": {"quick": False, "thorough": False},
     "assumptions": ASSUME_COMMON,
 }
@@ -235,7 +237,7 @@ CHECKS["C12"] = {
                        "parser.py:TokenParser._enum", "parser.py:CStyleParser._enums", "types/enum.py:Enum.__eq__",
                        "types/flag.py:Flag.__eq__", "types/enum.py:Enum.__hash__", "types/flag.py:Flag.__hash__"],
     "required_cells": ["pinned-witnesses", "enum:compiled", "enum:interpreted", "flag:compiled", "flag:interpreted", "legacy-parser",
-                       "anonymous-enum", "enum:int8", "flag:uint8", "enum:uint24", "flag:int16"],
+                       "anonymous-enum", "anonymous-constants:flag", "anonymous-constants:enum", "enum-over-enum", "members-named-name-or-value", "enum:int8", "flag:uint8", "enum:uint24", "flag:int16"],
     "assumptions": ASSUME_COMMON,
 }
 
@@ -276,7 +278,7 @@ CHECKS["C19"] = {
                        "utils.py:pack", "utils.py:unpack", "utils.py:swap", "utils.py:p8", "utils.py:u64",
                        "utils.py:swap16", "utils.py:swap32", "utils.py:swap64"],
     "required_cells": ["len%16=0", "len%16=1", "len%16=15", "palette:zeros", "palette:long", "palette:short",
-                       "palette:lineends", "dumpstruct:bits", "dumpstruct:plain", "pack:network", "pack:!", "pack:<", "pack:odd-width", "dumpstruct:forms", "dumpstruct:after-assignment"],
+                       "palette:lineends", "dumpstruct:bits", "dumpstruct:plain", "pack:network", "pack:!", "pack:<", "pack:odd-width", "dumpstruct:forms", "dumpstruct:after-assignment", "dumpstruct:after-extension", "swap:width-not-a-multiple-of-8"],
     "assumptions": ASSUME_COMMON,
 }
 
